@@ -219,11 +219,10 @@ def forEach (pj : PJ) (onlyKeys : List Bytes) (tmp : Iter) (n : Nat) (acc : Arra
       let n := n + 1
       if n == onlyKeys.length then .ok acc else forEach pj onlyKeys tmp n acc fuel
 
-/-- NOP fill of `[startO, end)` with descending skip counts. -/
-def fillNops (tape : Array UInt64) (startO e : Nat) : Res (Array UInt64) := Iter.nopFill tape startO e
-
 /-- `o.DeleteElems(fn, onlyKeys)`. `pred k name` is the callback's answer for the k-th callback
-    (`fn == nil` is `pred = fun _ _ => true`). Returns the new tape and the callbacks made. -/
+    (`fn == nil` is `pred = fun _ _ => true`). Returns the new tape and the callbacks made.
+    The NOP fill of `[startO, end)` (descending skip counts) writes `tmp.tape.Tape[i]` through the iterator's view:
+    `Iter.nopFillV tmp.lim`, which panics at the first index `≥ lim` as Go does. -/
 def deleteElems (pj : PJ) (pred : Nat → Bytes → Bool) (onlyKeys : List Bytes) (tmp : Iter) (n : Nat)
     (acc : Array (Bytes × Iter)) : (fuel : Nat) → Res (PJ × Array (Bytes × Iter))
   | 0 => .diverge
@@ -246,7 +245,7 @@ def deleteElems (pj : PJ) (pred : Nat → Bytes → Bool) (onlyKeys : List Bytes
       let pj ← (if del then do
           let e : Int := (tmp.off : Int) + tmp.addNext
           if e < 0 then .panic else do
-          let tp ← fillNops pj.tape startO e.toNat
+          let tp ← Iter.nopFillV tmp.lim pj.tape startO e.toNat
           .ok { pj with tape := tp }
         else .ok pj)
       deleteElems pj pred onlyKeys tmp (n + 1) acc fuel
@@ -292,7 +291,8 @@ def arrForEach (pj : PJ) (i : Iter) (acc : Array Iter) : (fuel : Nat) → Res (A
     let (i, t) ← i.advance pj
     if t == typeNone then .ok acc else arrForEach pj i (acc.push i) fuel
 
-/-- `a.DeleteElems(fn)`; `pred k` answers the k-th callback. -/
+/-- `a.DeleteElems(fn)`; `pred k` answers the k-th callback.  The fill writes `i.tape.Tape[off]` through the
+    iterator's view (`Iter.nopFillV i.lim`). -/
 def arrDeleteElems (pj : PJ) (pred : Nat → Bool) (i : Iter) (n : Nat) (acc : Array Iter) :
     (fuel : Nat) → Res (PJ × Array Iter)
   | 0 => .diverge
@@ -302,7 +302,7 @@ def arrDeleteElems (pj : PJ) (pred : Nat → Bool) (i : Iter) (n : Nat) (acc : A
     let pj ← (if pred n then do
         let e : Int := (i.off : Int) + i.addNext
         if e < 0 ∨ i.off = 0 then .panic else do
-        let tp ← fillNops pj.tape (i.off - 1) e.toNat
+        let tp ← Iter.nopFillV i.lim pj.tape (i.off - 1) e.toNat
         .ok { pj with tape := tp }
       else .ok pj)
     arrDeleteElems pj pred i (n + 1) (acc.push i) fuel
